@@ -239,17 +239,24 @@ def macro_structure(ctx):
     for i, (path, body, call) in enumerate(sorts):
         f = call["fn"]
         inst = "%s/sort#%d" % (path.split("::")[-1], i)
-        ctx.ob("macro-stable-sort", inst, f["path"].startswith("alloc::slice::<impl [T]>::sort_by") and "unstable" not in f["path"],
-               "units are ordered with %s: the declaration order of equal-scale units is only preserved by the stable slice sort" % f["path"], call.get("sp"))
-        clos = [a for a in call["args"] if model.peel(a) and model.peel(a)["k"] == "closure"]
-        if len(clos) != 1:
-            ctx.fail("macro-comparator", inst, "sort call without a closure comparator", call.get("sp"))
-            continue
-        cdef = model.peel(clos[0])["def"]
+        stable = f["path"] in ("alloc::slice::<impl [T]>::sort_by", "alloc::slice::<impl [T]>::sort_by_key",
+                               "alloc::slice::<impl [T]>::sort_by_cached_key", "alloc::slice::<impl [T]>::sort")
+        ctx.ob("macro-stable-sort", inst, stable,
+               "units are ordered with %s: the declaration order of equal-scale units is only preserved by the stable slice sorts" % f["path"], call.get("sp"))
+        by_key = f["name"] in ("sort_by_key", "sort_by_cached_key")
         ev = T.Evaluator(U, keep_tags=False, max_depth=0)
-        A, B = ("p", 1, "a"), ("p", 2, "b")
+        A, B = T.P(1, "a"), T.P(2, "b")
+        fargs = [model.peel(a) for a in call["args"][1:]]
         try:
-            outs = ev.summarize_closure(("closure", cdef, ()), [A, B])
+            if len(fargs) != 1:
+                raise T.Unsupported("sort call without a comparator / key function")
+            fa = fargs[0]
+            if fa["k"] == "closure":
+                outs = ev.summarize_closure(("closure", fa["def"], ()), [A] if by_key else [A, B])
+            elif fa["k"] == "zst" and fa.get("fn") and fa["fn"]["path"] in U.body:
+                outs = T.Evaluator(U, keep_tags=False, max_depth=0).summarize(U.body[fa["fn"]["path"]], args=[A] if by_key else [A, B])
+            else:
+                raise T.Unsupported("comparator is neither a closure nor a function of the macro crate")
         except T.Unsupported as x:
             ctx.fail("macro-comparator", inst, "unsupported construct in the sort comparator: " + x.what, x.sp or call.get("sp"))
             continue
@@ -257,22 +264,29 @@ def macro_structure(ctx):
         ok = False
         if len(outs) == 1 and not outs[0][0] and outs[0][1] == "val":
             t = outs[0][2]
-            if t[0] == "unwrap":
-                t = t[1]
-            pair = None
-            if t[0] == "pcmp":
-                pair = (t[1], t[2])
-            elif t[0] == "app" and t[1].endswith("::cmp") and len(t[3]) == 2:
-                pair = (t[3][0], t[3][1])
-            if pair:
-                fl = flatten(pair[0])
-                ok = T.canon(subst(pair[0], {A: B})) == T.canon(pair[1]) and A in fl and B not in fl
-                # the key is the declared scale (reference-unit path) resp. the unit NAME (other path)
+            key_a = None
+            if by_key:
+                key_a = t
+                ok = True
+            else:
+                if t[0] == "unwrap":
+                    t = t[1]
+                pair = None
+                if t[0] == "pcmp":
+                    pair = (t[1], t[2])
+                elif t[0] == "app" and t[1].endswith("::cmp") and len(t[3]) == 2:
+                    pair = (t[3][0], t[3][1])
+                if pair:
+                    key_a = pair[0]
+                    ok = T.canon(subst(pair[0], {A: B})) == T.canon(pair[1])
+            if ok:
+                fl = flatten(key_a)
+                # the key is the declared scale (reference-unit path) resp. the unit NAME (other path) of its own argument
                 keyfield = [x[2] for x in fl if x[0] == "field" and x[1] == A]
-                ok = ok and keyfield in (["scale"], ["name"])
+                ok = A in fl and B not in fl and keyfield in (["scale"], ["name"])
                 desc += "  [key field: %s]" % keyfield
         ctx.ob("macro-comparator", inst, ok,
-               "the sort comparator is not an exact ordering `key(a).cmp(key(b))` of the specified key (scale literal / unit name) — observed: %s" % desc,
+               "the sort is not an exact ordering by the specified key (scale literal / unit name) of each element — observed: %s" % desc,
                call.get("sp"))
 
 
